@@ -649,9 +649,21 @@ func runC20(c *Ctx) {
 			}
 			return false
 		}
-		allInstrs(fn, func(in ssa.Instruction) {
+		// helperMode: the second pass, over a private helper that computes the cut point from (s, n) — s[:cutPoint(s, n)]
+		helperMode, cutAtEntry, kpfx := false, false, "mstr.Trunc"
+		var pendingHelper *ssa.Call
+		var visitor func(in ssa.Instruction)
+		visitor = func(in ssa.Instruction) {
 			switch x := in.(type) {
 			case *ssa.Return:
+				if helperMode {
+					var ls []ssa.Value
+					phiLeaves(x.Results[0], nil, map[ssa.Value]bool{}, &ls)
+					for _, r := range ls {
+						c.judge(inClosure(r, map[ssa.Value]bool{}), "R-TRUNC-PREFIX", kpfx+":return "+ksym(r), x.Pos(), "a cut point reached from n by decrements only", "the helper hands back "+ksym(r)+", which is not obtained from its argument n by decrements only: the cut point may exceed n")
+					}
+					return
+				}
 				// a single exit that returns "s or the cut s" is a φ of the two: each is judged as if returned
 				var leaves []ssa.Value
 				phiLeaves(x.Results[0], nil, map[ssa.Value]bool{}, &leaves)
@@ -670,8 +682,15 @@ func runC20(c *Ctx) {
 					if sl.Low != nil && !isConstInt(sl.Low, 0) {
 						probs = append(probs, "the result does not start at offset 0 (not a prefix)")
 					}
+					if hc, isCall := sl.High.(*ssa.Call); isCall && sl.High != nil {
+						if cal := origin(staticCallee(&hc.Call)); cal != nil && cal.Blocks != nil && cal.Pkg == origin(fn).Pkg && len(hc.Call.Args) == 2 && hc.Call.Args[0] == ssa.Value(s) && hc.Call.Args[1] == ssa.Value(n) && len(cal.Params) == 2 {
+							pendingHelper = hc
+						}
+					}
 					if sl.High == nil {
 						probs = append(probs, "no upper bound")
+					} else if pendingHelper != nil && ssa.Value(pendingHelper) == sl.High {
+						// judged in the helper, below
 					} else if !inClosure(sl.High, map[ssa.Value]bool{}) {
 						probs = append(probs, "the cut point "+sym(sl.High)+" is not obtained from n by decrements only (it may exceed n)")
 					}
@@ -699,7 +718,7 @@ func runC20(c *Ctx) {
 					}
 					db := factsDBAt(x.Block())
 					ls := "len(" + sym(s) + ")"
-					cutting := db.has(sym(n), token.LSS, ls)
+					cutting := cutAtEntry || db.has(sym(n), token.LSS, ls)
 					// … or the clamped start min(n, len(s)) is known to differ from len(s), which is the same thing
 					for _, cm := range cmpsAt(x.Block()) {
 						for _, pr := range [][2]ssa.Value{{cm.X, cm.Y}, {cm.Y, cm.X}} {
@@ -710,14 +729,14 @@ func runC20(c *Ctx) {
 							}
 						}
 					}
-					c.judge(cutting, "R-TRUNC-PREFIX", "mstr.Trunc:backs up only when cutting", x.Pos(), "under n < len(s)", "the cut point is moved back on a path where n < len(s) is not known: for n ≥ len(s) the whole string must be returned, but a string ending in a multi-byte character loses it")
+					c.judge(cutting, "R-TRUNC-PREFIX", kpfx+":backs up only when cutting", x.Pos(), "under n < len(s)", "the cut point is moved back on a path where n < len(s) is not known: for n ≥ len(s) the whole string must be returned, but a string ending in a multi-byte character loses it")
 				}
 			case *ssa.Index:
 				// s[h-1] on a string
 				if x.X != ssa.Value(s) {
 					return
 				}
-				key := "mstr.Trunc:index " + ksym(x.Index)
+				key := kpfx + ":index " + ksym(x.Index)
 				bo, ok := x.Index.(*ssa.BinOp)
 				if !ok || bo.Op != token.SUB || !isConstInt(bo.Y, 1) || !inClosure(bo.X, map[ssa.Value]bool{}) {
 					c.undecided("R-TRUNC-PREFIX", key, x.Pos(), "index is not h−1 for a cut point h")
@@ -726,7 +745,17 @@ func runC20(c *Ctx) {
 				db := factsDBAt(x.Block())
 				c.judge(db.pos(sym(bo.X), 0), "R-TRUNC-PREFIX", key, x.Pos(), "guarded by h > 0", "s[h-1] is read without h > 0: index -1 panics for n that backs up to 0")
 			}
-		})
+		}
+		allInstrs(fn, visitor)
+		if pendingHelper != nil {
+			h := origin(staticCallee(&pendingHelper.Call))
+			db := factsDBAt(pendingHelper.Block())
+			cutAtEntry = db.has(sym(n), token.LSS, "len("+sym(s)+")")
+			helperMode, kpfx = true, "mstr.Trunc via "+h.Name()
+			s, n = h.Params[0], h.Params[1]
+			c.sawFn(fnName(h))
+			allInstrs(h, visitor)
+		}
 	} else {
 		c.undecided("ANCHOR", "mstr.Trunc", 0, "not found")
 	}
